@@ -32,7 +32,8 @@ TIERS = {
     "thorough": {"runs": 0, "budget_s": 900, "chunk": 2500, "selftest": 1000, "per_run_timeout": 300},
 }
 
-SITES = [(1, 10, 2), (2, 20, 3), (3, 30, 1), (4, 40, 5), (5, 50, 4), (1, 11, 3), (2, 21, 1)]
+# the third site is the entry marker lian itself builds (CallSite(method, 0, 0)): ids equal to 0 are valid ids
+SITES = [(1, 10, 2), (2, 20, 3), (3, 0, 0), (4, 40, 5), (5, 50, 4), (1, 11, 3), (2, 21, 1)]
 NEG_SITES = [(-1, 10, 2), (2, -20, 3), (3, 30, -1)]
 BIG = 9_300_000_000
 
